@@ -55,6 +55,13 @@ func (d *Driver) EstablishPeriodicSubscription(
 	patterns := getNetconfPatterns()
 
 	subscriptionResult := patterns.subscriptionResult.FindSubmatch(r.RawResult)
+	if len(subscriptionResult) < 2 { //nolint: gomnd
+		// a reply, but not one that says how the subscription went
+		return nil, fmt.Errorf(
+			"%w: subscription failed: reply holds no subscription result",
+			util.ErrNetconfError,
+		)
+	}
 
 	if string(subscriptionResult[1]) != "ok" {
 		return nil, fmt.Errorf(
@@ -65,6 +72,13 @@ func (d *Driver) EstablishPeriodicSubscription(
 	}
 
 	match := patterns.subscriptionID.FindSubmatch(r.RawResult)
+	if len(match) < 2 { //nolint: gomnd
+		return nil, fmt.Errorf(
+			"%w: subscription failed: reply holds no subscription id",
+			util.ErrNetconfError,
+		)
+	}
+
 	subID, _ := strconv.Atoi(string(match[1]))
 
 	// the read loop files notifications under the same lock, possibly before we get here (the
